@@ -15,6 +15,7 @@ package main
 // it and the oracle is evaluated again.
 
 import (
+	"bytes"
 	"context"
 	"fmt"
 	"sort"
@@ -23,8 +24,10 @@ import (
 	"time"
 
 	"github.com/restic/restic/internal/backend"
+	"github.com/restic/restic/internal/data"
 	"github.com/restic/restic/internal/global"
 	"github.com/restic/restic/internal/repository"
+	"github.com/restic/restic/internal/repository/pack"
 	"github.com/restic/restic/internal/restic"
 	"github.com/restic/restic/internal/verifshim/gatebe"
 	"github.com/restic/restic/internal/verifshim/oracle"
@@ -39,6 +42,9 @@ type verifC09Fixture struct {
 	expect  oracle.Expect
 	sem     func(k gatebe.FileKey, data []byte, lookup func(gatebe.FileKey) string) string
 	version uint
+	// skipCheck: the fixture deliberately contains an indexed pack that is missing (check reports it); crash
+	// states are judged by snapshot contents only, completed prunes by the full oracle
+	skipCheck bool
 }
 
 const verifC09PackSize = 8 * 1024
@@ -106,6 +112,107 @@ func verifC09Build(t *testing.T, name string) *verifC09Fixture {
 			t.Fatal(err)
 		}
 		forget(s2)
+	case "dup-partly-unused-pack-missing":
+		// as dup-pack-missing, but the lost pack also holds blobs that no snapshot needs any more, so it
+		// does not consist of duplicates only and the copy-selection of prune depends on iteration order
+		s1 := forge(t1, "s1", 1)
+		s2 := forge(t2, "s2", 2)
+		forget(s1)
+		if err := repo.LoadIndex(ctx, restic.NoopTerminalCounterFactory); err != nil {
+			t.Fatal(err)
+		}
+		sn2, err := data.LoadSnapshot(ctx, repo, s2)
+		if err != nil {
+			t.Fatal(err)
+		}
+		used := restic.NewBlobSet()
+		if err := data.FindUsedBlobs(ctx, repo, restic.IDs{*sn2.Tree}, used, restic.NoopCounter); err != nil {
+			t.Fatal(err)
+		}
+		var victim gatebe.FileKey
+		var dupBlobs []restic.BlobHandle
+		for _, k := range store.Keys(backend.PackFile) {
+			buf, _ := store.Get(k)
+			blobs, _, err := pack.List(repo.Key(), bytes.NewReader(buf), int64(len(buf)))
+			if err != nil || len(blobs) < 2 || blobs[0].Type != restic.DataBlob {
+				continue
+			}
+			var u []restic.BlobHandle
+			for _, b := range blobs {
+				if used.Has(b.BlobHandle) {
+					u = append(u, b.BlobHandle)
+				}
+			}
+			if len(u) > 0 && len(u) < len(blobs) {
+				victim, dupBlobs = k, u
+				break
+			}
+		}
+		if victim.Name == "" {
+			t.Fatal("no partly used data pack found")
+		}
+		err = repo.WithBlobUploader(ctx, func(ctx context.Context, up restic.BlobSaverWithAsync) error {
+			for _, h := range dupBlobs {
+				buf, err := repo.LoadBlob(ctx, h, nil)
+				if err != nil {
+					return err
+				}
+				if _, _, _, err := up.SaveBlob(ctx, h.Type, buf, h.ID, true); err != nil {
+					return err
+				}
+			}
+			_, _, _, err := up.SaveBlob(ctx, restic.DataBlob, oracle.LCG(998, 700), restic.ID{}, false)
+			return err
+		})
+		if err != nil {
+			t.Fatal(err)
+		}
+		store.Del("setup", victim)
+		fx.skipCheck = true
+	case "dup-pack-missing":
+		// every blob of one data pack also exists in a second pack (as after `repair packs`/an interrupted
+		// prune), then the ORIGINAL pack file is lost while the index still lists it: all data is still
+		// available, prune must not drop the last copy
+		forge(t1, "s1", 1)
+		if err := repo.LoadIndex(ctx, restic.NoopTerminalCounterFactory); err != nil {
+			t.Fatal(err)
+		}
+		var victim gatebe.FileKey
+		var victimBlobs []restic.BlobHandle
+		for _, k := range store.Keys(backend.PackFile) {
+			buf, _ := store.Get(k)
+			blobs, _, err := pack.List(repo.Key(), bytes.NewReader(buf), int64(len(buf)))
+			if err != nil || len(blobs) < 2 || blobs[0].Type != restic.DataBlob {
+				continue
+			}
+			victim = k
+			for _, b := range blobs {
+				victimBlobs = append(victimBlobs, b.BlobHandle)
+			}
+			break
+		}
+		if victim.Name == "" {
+			t.Fatal("no data pack found")
+		}
+		err := repo.WithBlobUploader(ctx, func(ctx context.Context, up restic.BlobSaverWithAsync) error {
+			for _, h := range victimBlobs {
+				buf, err := repo.LoadBlob(ctx, h, nil)
+				if err != nil {
+					return err
+				}
+				if _, _, _, err := up.SaveBlob(ctx, h.Type, buf, h.ID, true); err != nil {
+					return err
+				}
+			}
+			// an unused blob so that the pack holding the duplicates is only partly used
+			_, _, _, err := up.SaveBlob(ctx, restic.DataBlob, oracle.LCG(999, 700), restic.ID{}, false)
+			return err
+		})
+		if err != nil {
+			t.Fatal(err)
+		}
+		store.Del("setup", victim)
+		fx.skipCheck = true
 	case "unreferenced": // all snapshots kept, plus an unindexed (orphaned) pack and a fully unused indexed pack
 		forge(t1, "s1", 1)
 		s3 := forge(t3, "s3", 3)
@@ -116,7 +223,7 @@ func verifC09Build(t *testing.T, name string) *verifC09Fixture {
 	fx.state = store.Snapshot()
 	fx.sem = oracle.SemNamer(repo.Key())
 	// sanity: the fixture itself must satisfy the oracle
-	if probs := oracle.Verify(ctx, fx.state, oracle.Password, fx.expect, oracle.VerifyOpts{ReadData: true}); len(probs) > 0 {
+	if probs := oracle.Verify(ctx, fx.state, oracle.Password, fx.expect, oracle.VerifyOpts{ReadData: true, SkipCheck: fx.skipCheck}); len(probs) > 0 {
 		t.Fatalf("fixture %s is not consistent before prune: %v", name, probs)
 	}
 	return fx
@@ -168,7 +275,7 @@ func TestVerif_C09(t *testing.T) {
 		"goroutine interleaving between two backend events is the Go runtime's choice (one per explored event order)",
 		"--unsafe-recover-no-free-space is excluded (documented as unsafe under interruption)")
 	oracle.LowKDF()
-	fixtures := []string{"forget-oldest", "duplicates", "unreferenced", "forget-oldest-v1"}
+	fixtures := []string{"forget-oldest", "duplicates", "unreferenced", "forget-oldest-v1", "dup-pack-missing", "dup-partly-unused-pack-missing"}
 	if r.Thorough() {
 		fixtures = append(fixtures, "forget-middle", "duplicates-v1", "forget-middle-v1")
 	}
@@ -237,7 +344,7 @@ func TestVerif_C09(t *testing.T) {
 				if x.Deadlock {
 					vx.Violation(r, name, x, "C09|deadlock|"+name, "prune blocked forever: unfinished but no pending backend operation", nil)
 				}
-				if st.done && st.err != nil && !st.faulted {
+				if st.done && st.err != nil && !st.faulted && !fx.skipCheck {
 					vx.Violation(r, name, x, "C09|prune-failed|"+name, fmt.Sprintf("prune failed without any injected fault: %v", st.err), nil)
 				}
 				r.Outcome(fmt.Sprintf("%s err=%v", name, st.err != nil))
@@ -247,13 +354,16 @@ func TestVerif_C09(t *testing.T) {
 						r.Nontrivial(c.key)
 					}
 					r.Count("oracle_evaluations", 1)
-					if probs := oracle.Verify(ctx, c.state, oracle.Password, fx.expect, oracle.VerifyOpts{ReadData: true}); len(probs) > 0 {
+					if probs := oracle.Verify(ctx, c.state, oracle.Password, fx.expect, oracle.VerifyOpts{ReadData: true, SkipCheck: fx.skipCheck}); len(probs) > 0 {
 						vx.Violation(r, name, x, "C09|crash-state|"+name+"|"+verifC09Kind(probs), fmt.Sprintf("crash state %s violates the oracle:\n  %s\nfiles: %s", c.desc, strings.Join(probs, "\n  "), strings.Join(st.store.Describe(c.state), " ")), map[string]any{"crash": c.desc})
 						continue
 					}
 					// the user re-runs prune on the partial state
 					after, err := verifC09SecondPrune(ctx, c.state, popts)
 					r.Count("second_prunes", 1)
+					if err != nil && fx.skipCheck {
+						continue // refusing to prune a repository with a missing pack is fine
+					}
 					if err != nil {
 						vx.Violation(r, name, x, "C09|second-prune-failed|"+name, fmt.Sprintf("re-running prune on crash state %s failed: %v", c.desc, err), map[string]any{"crash": c.desc})
 						continue
